@@ -1,5 +1,5 @@
 """C08 — Message-ID window: a request runs at most once, replays come from the cache; header stamping."""
-from vf import walk, window, sim as S
+from vf import gen, walk, window, sim as S
 from vf.sim import State
 
 RULE = ('a window automaton is fed online with every real main_loop iteration of both endpoints: a request handler may run only for the next '
@@ -88,25 +88,101 @@ def run(ck):
                 # late replay of something recorded earlier
                 k = rng.randrange(len(sim.wire))
                 nn, s_, d_, data = sim.wire[k]
+                if rng.random() < 0.3:
+                    # ... and much later than pyikev2 itself would retransmit (other implementations back off for minutes)
+                    dt_ = rng.choice([21.0, 35.0, 50.0])
+                    sim.case['actions'].append(('tick', dt_))
+                    sim.tick_all(dt_)          # (the timers that fall due act in their own loop turns, not in the turn of the replayed datagram:
+                    for _c in range(6):        #  one retransmission step per turn, so the daemon needs a few turns to catch up with a long sleep)
+                        sim.tick_all(0.0)
+                    ck.count('late_replays_after_more_than_20_s')
                 sim.case['actions'].append(('late-replay', k))
                 sim.inject(sim.addr2ep[d_], s_, d_, data)
                 ck.count('late_replays')
             else:
                 sc.deliver(rng.randrange(len(net)))
         sc.settle()
-        # after everything settled: replay a few old datagrams again (old IKE_SAs are gone, successors exist)
+        # after everything settled: replay a few old datagrams again (old IKE_SAs are gone, successors exist); the LAST request each side answered comes
+        # again after 25 s and after 2 minutes: still the stored response, octet for octet
+        last_reqs = {}
+        for (nn, s_, d_, data) in sim.wire:
+            if not data[19] & 0x20 and data[18] != 34:
+                last_reqs[d_] = (nn, s_, d_, data)
+        for dt_ in (25.0, 95.0):
+            for (nn, s_, d_, data) in last_reqs.values():
+                sim.case['actions'].append(('tick', dt_))
+                sim.tick_all(dt_)
+                for _c in range(6):
+                    sim.tick_all(0.0)
+                sim.net.clear()
+                sim.case['actions'].append(('late-replay-of-the-last-request', nn))
+                sim.inject(sim.addr2ep[d_], s_, d_, data)
+                sim.net.clear()
+                ck.count('late_replays_after_more_than_20_s')
         for k in rng.sample(range(len(sim.wire)), min(5, len(sim.wire))):
             nn, s_, d_, data = sim.wire[k]
             sim.case['actions'].append(('late-replay', k))
             sim.inject(sim.addr2ep[d_], s_, d_, data)
             sim.drain()
             ck.count('late_replays')
+        # an AUTHENTIC request of the peer that carries a payload of a kind we do not know with the CRITICAL bit set (legal: RFC 7296 2.5), at Message IDs
+        # inside and outside the window, each twice: whatever the answer is, it obeys the window rules like any other request
+        from vf import observe as _ob
+        from vf.ref import codec as _cd, ikecrypto as _ik
+        if w % 3 == 0:
+            for ep_v, ep_p in ((sc.a, sc.b), (sc.b, sc.a)):
+                vs_ = [x for x in ep_v.ctl.ike_sas if x.state.name == 'ESTABLISHED']
+                ps_ = [x for x in ep_p.ctl.ike_sas if x.state.name == 'ESTABLISHED' and vs_ and bytes(x.spi_i) == bytes(vs_[0].spi_i)]
+                if not vs_ or not ps_:
+                    continue
+                vsa, psa = vs_[0], ps_[0]
+                # (these datagrams are not copies of traffic the monitor saw: they are judged here, the window automaton is detached for the rest of this walk)
+                sim.monitors[:] = [f for f in sim.monitors if type(getattr(f, '__self__', None)).__name__ != 'WindowMonitor']
+                keys = _ob.crypto_keys(psa.my_crypto)
+                seen_replies = {}
+                inner = _cd.enc_chain([{'type': 201, 'critical': True, 'body': b'zz'}, {'type': 41, 'critical': False, 'proto': 0, 'spi': b'', 'ntype': 16384, 'data': b''}])
+                for off in (0, 0, -1, -3, 1, 7):
+                    mid = (vsa.peer_msg_id + off) % 2 ** 32
+                    hdr = {'spi_i': bytes(psa.spi_i), 'spi_r': bytes(psa.spi_r), 'major': 2, 'minor': 0, 'exch': 37, 'flags': 0x08 if psa.is_initiator else 0, 'mid': mid}
+                    d = _ik.sk_seal(hdr, None, keys[0], keys[1], keys[2], gen.rb(rng, 16), inner_raw=inner, inner_first=201)
+                    sim.case['actions'].append(('authentic-request-with-a-critical-unknown-payload', off))
+                    exp0, st0, nl0 = vsa.peer_msg_id, vsa.state.name, len(ep_v.kernel.requests)
+                    sim.inject(ep_v, str(psa.my_addr), str(vsa.my_addr), d)
+                    replies = [x.data for x in sim.net if x.dst == str(psa.my_addr)]
+                    sim.net.clear()
+                    ck.count('critical_unknown.requests')
+                    if off not in (0, -1):
+                        # "any other ID is dropped without effect"
+                        if replies or vsa.peer_msg_id != exp0 or vsa.state.name != st0 or len(ep_v.kernel.requests) != nl0:
+                            ck.violation('request-outside-the-window-had-an-effect:critical-unknown-payload', {'offset': off, 'replied': bool(replies), 'peer_msg_id': (exp0, vsa.peer_msg_id)}, sim.case)
+                    elif off == 0:
+                        # whatever the answer to the first copy: the second copy gets the same octets again (stored response) or, if the first was dropped, nothing
+                        if 'first' not in seen_replies:
+                            seen_replies['first'] = (replies, vsa.peer_msg_id != exp0)
+                        else:
+                            r1, executed = seen_replies['first']
+                            if replies != r1 and not (not r1 and not replies):
+                                ck.violation('two-copies-of-one-request-answered-with-different-octets:critical-unknown-payload', {'first': len(r1), 'second': len(replies), 'executed_first': executed}, sim.case)
+                            if r1 and any(x[20:24] != d[20:24] for x in r1):
+                                ck.violation('response-message-id-differs-from-its-request:critical-unknown-payload', {}, sim.case)
+                # and the IKE_SA still works: the peer's next real request (a DPD probe) is answered
+                pm = psa.my_msg_id
+                psa.start_dpd_at = sim.clock.t - 1
+                ep_p.step('tick')
+                sim.drain()
+                if psa.state.name == 'ESTABLISHED' and psa.my_msg_id == pm + 1:
+                    ck.count('critical_unknown.ike_sa_still_works')
+                elif psa in ep_p.ctl.ike_sas or vsa in ep_v.ctl.ike_sas:
+                    ck.violation('ike-sa-out-of-step-after-authentic-requests-with-a-critical-unknown-payload', {'peer_state': psa.state.name, 'victim_state': vsa.state.name,
+                                                                                                                   'peer_my_msg_id': psa.my_msg_id, 'victim_peer_msg_id': vsa.peer_msg_id}, sim.case)
         ck.nontrivial(repr(sim.case['actions']))
         ck.count('walks')
 
 
 def verdict(ck):
     c = ck.counters
+    ck.floor('replays arriving more than 20 s (virtual) after the original', c['late_replays_after_more_than_20_s'], 300)
+    ck.floor('authentic requests with a critical unknown payload', c['critical_unknown.requests'], 200)
     ck.floor('replays of the preceding request', c['win.replay_of_previous_request'], 500)
     ck.floor('older / future requests dropped', c['win.dropped_request.older'] + c['win.dropped_request.future'], 300)
     ck.floor('responses dropped (no matching outstanding request)', c['win.dropped_response'], 500)
